@@ -355,6 +355,18 @@ def run(ctx):
         finding('C07.d', 'R-SIBLING', g_f, 'except %s: errno filter' % (norm(h.type) if h.type is not None else ''),
                 'the file cassette maps a failed open() to NoSuchRecording only for selected errno values: an id that was never saved and whose path cannot '
                 'be opened for another reason (name too long, a directory, a file in place of a directory) raises IOError instead', h.lineno)
+    # ids are unique whatever is in flight: every cassette builds the id of a new recording from a fresh uuid (an id computed from what is
+    # stored so far is shared by two recordings created before either is saved - the second save replaces the first)
+    for c in (mem, fil, s3):
+        cr = c.lookup('create_new_recording')
+        if cr is None or cr.cls is not c:
+            continue
+        uu = [n for n in ast.walk(cr.node) if isinstance(n, ast.Call) and norm(n.func).split('.')[-1] in ('uuid1', 'uuid4')]
+        cb.instance('%s.create_new_recording takes the id from a fresh uuid' % c.name, cr.qualname, bool(uu))
+        if not uu:
+            finding('C07.b', 'R-AGREE', cr, 'id of a new recording',
+                    '%s.create_new_recording does not build the id from a fresh uuid: ids derived from the cassette\'s content (a count, a timestamp) '
+                    'coincide for recordings created before either is saved, and the later save overwrites the earlier recording' % c.name)
     # ---------------- C07.e
     sv_m = F(mem, '_save_recording')
     stores = [n for n in walk_own(sv_m.node) if isinstance(n, ast.Assign) and isinstance(n.targets[0], ast.Subscript) and self_attr(n.targets[0].value)]
